@@ -197,199 +197,135 @@ def r1_freshness(chk, fx):
 
 
 # ---------------------------------------------------------------------------------------------
+OR = "netconf::session::OutstandingRequest"
+RECV_CO = SESSION + "::recv::{closure#0}::{closure#0}"
+
+
+def _slot(v):
+    return ("adt", OR, v, (("0", ("sym", "STORED")),) if v == "Ready" else ())
+
+
+def explore_recv(fx, own, park):
+    """One iteration of Session::recv's loop with the caller's own slot in state `own` and the slot of the reply that is read in state
+    `park` ('absent' = no such entry).  Locks are symbolic, the transport read yields a symbolic reply READ."""
+    from vlib import absint as A
+
+    def hook(fn, args, node, interp):
+        s2 = T.short(fn, 2)
+        if s2 == "Mutex::lock":
+            return ("sym", "GUARD")
+        if s2 == "HashMap::get_mut" and len(args) == 2:
+            key = A.vstr(args[1])
+            from_reply = "«READ»" in key
+            interp.trace.append(("lookup", "reply" if from_reply else ("own" if "message_id" in key and "READ" not in key else "?"), args[1], node.get("sp")))
+            st = park if from_reply else own
+            return A.NONE if st == "absent" else A.some(_slot(st))
+        if s2 in ("ServerMsg::recv", "PartialReply::recv"):
+            interp.trace.append(("call", fn, tuple(args), node.get("sp")))
+            return ("term", "async-ready", (("sym", "READ"),))
+        return None
+    it = A.Interp(fx, hook=hook, crates=("netconf",), max_paths=3000, no_inline=("ServerMsg::recv", "Reply::<O>::into_result", "try_from"))
+    it.model_iterators = False
+    return it.explore(RECV_CO)
+
+
 def r2_own_slot(chk, fx):
-    b = fx.user_coroutine(SESSION + "::recv")
-    chk.analysed(b.name)
-    gm = b.calls_to("HashMap::<K, V, S, A>::get_mut", "HashMap::<K, V, S>::get_mut", user_only=True)
-    chk.floor("C05/R2 get_mut sites in Session::recv", len(gm), 2)
-    take = b.calls_to("netconf::session::OutstandingRequest::take", user_only=True)
-    tf = b.calls_to("TryInto::try_into", "TryFrom::try_from", user_only=True)
-    rd = b.calls_to("ServerMsg::recv", user_only=True)
-    rep = b.calls_to("std::mem::replace", user_only=True)
-    if len(take) != 1 or len(tf) != 1 or len(rd) != 1 or len(rep) != 1:
-        raise F.AnchorLost("Session::recv: take/try_into/ServerMsg::recv/mem::replace sites (%d/%d/%d/%d)" % (len(take), len(tf), len(rd), len(rep)))
-    chk.call_sites += len(gm) + 4
-    pt = lambda c: c.is_fn(*F.PASS_THROUGH) or c.is_fn("Try::branch", "DerefMut::deref_mut", "Deref::deref")
-    # (a) delivered reply: try_into(arg) <- take() <- get_mut(&message_id)
-    o_tf = b.backward_origins(F.op_base(tf[0].args[0]), through_call=pt)
-    src = [o["call"] for o in o_tf if o["k"] == "call" and o["call"] is not None]
-    ok = bool(src) and all(c.bb == take[0].bb for c in src)
-    chk.instance("C05/R2", "the reply delivered to the caller comes from OutstandingRequest::take on a slot", b.name, tf[0].loc(),
-                 holds=ok, key="C05/R2 Session::recv delivered-reply-origin")
-    o_take = b.backward_origins(F.op_base(take[0].args[0]), through_call=pt)
-    src = [o["call"] for o in o_take if o["k"] == "call" and o["call"] is not None]
-    g_own = [g for g in gm if g.bb in {c.bb for c in src}]
-    ok = len(g_own) == 1 and len(src) == 1 and b.derives_from_var(F.op_base(g_own[0].args[1]), "message_id")
-    chk.instance("C05/R2", "that slot is requests.get_mut(&message_id) with the caller's own id", b.name, take[0].loc(), holds=ok,
-                 key="C05/R2 Session::recv own-slot-key")
-    # result returned: into_result of that reply
-    ir = b.calls_to("Reply::<O>::into_result", user_only=True)
-    t_reply = b.forward_taint([tf[0].dest["l"]], through_call=pt)
-    ok = len(ir) == 1 and F.op_base(ir[0].args[0]) in t_reply
-    chk.instance("C05/R2", "the caller's result is into_result() of that reply", b.name, ir[0].loc() if ir else None, holds=ok,
-                 key="C05/R2 Session::recv result-origin")
-    for (bi, si, s) in b.ok_aggs():
-        chk.instance("C05/R2", "no other Ok(..) is fabricated in Session::recv", b.name, loc_of(s.get("sp")), holds=False,
-                     key="C05/R2 Session::recv fabricated-Ok")
-    # (b) parking: replace(slot, Ready(reply)) where slot = get_mut(&reply.message_id()) and reply = the message just read
-    t_read = b.forward_taint([rd[0].dest["l"]], through_call=pt)
-    o_slot = b.backward_origins(F.op_base(rep[0].args[0]), through_call=pt)
-    src = [o["call"] for o in o_slot if o["k"] == "call" and o["call"] is not None]
-    g_park = [g for g in gm if g.bb in {c.bb for c in src}]
-    ok = len(g_park) == 1 and len(src) == 1
-    key_ok = False
-    if ok:
-        o_key = b.backward_origins(F.op_base(g_park[0].args[1]), through_call=lambda c: False)
-        ks = [o["call"] for o in o_key if o["k"] == "call" and o["call"] is not None]
-        key_ok = len(ks) == 1 and ks[0].is_fn("PartialReply::message_id") and F.op_base(ks[0].args[0]) in b.forward_taint(list(t_read), through_call=lambda c: False)
-    chk.instance("C05/R2", "a received reply is parked in the slot looked up by its own message-id", b.name, rep[0].loc(),
-                 holds=ok and key_ok, key="C05/R2 Session::recv parking-slot-key")
-    o_val = b.backward_origins(F.op_base(rep[0].args[1]), through_call=lambda c: False)
-    aggs = [o for o in o_val if o["k"] == "agg" and o["rv"].get("variant") == "Ready"]
-    ok = len(aggs) == 1 and F.op_base(aggs[0]["rv"]["fields"][0]) in t_read
-    chk.instance("C05/R2", "the parked value is Ready(<the reply just read>)", b.name, rep[0].loc(), holds=ok,
-                 key="C05/R2 Session::recv parked-value")
-    # unknown id -> error edge (ok_or / ok_or_else + `?`) before the slot is touched
-    for g in gm:
-        e = b.ok_edge_of(g)
-        users = [rep[0]] if g in g_park else [take[0]]
-        ok = e is not None and all(b.edge_dominates(b._switch_block_of(e[0]), e[1], u.bb) for u in users)
-        chk.instance("C05/R2", "a message-id with no outstanding request takes the error edge (never delivered / stored)",
-                     b.name, g.loc(), holds=ok, key="C05/R2 Session::recv unknown-id-not-rejected %s" % ("park" if g in g_park else "own"))
+    from vlib import absint as A
+    if RECV_CO not in fx.thir:
+        raise F.AnchorLost("Session::recv user coroutine")
+    chk.analysed(RECV_CO)
+    fn = "Session::recv"
+
+    def errname(p):
+        return A.vstr(p.ret) if p.ret is not None else ""
+
+    # --- the caller's own slot -----------------------------------------------------------------------------------------------------------
+    ps = explore_recv(fx, "Ready", "-")
+    oks = [p for p in ps if p.ret is not None and "into_result" in A.vstr(p.ret)]
+    good = bool(oks) and all([e[1] for e in p.trace if e[0] == "lookup"] == ["own"] for p in ps)
+    chk.instance("C05/R2", "the reply delivered to the caller comes from OutstandingRequest::take on a slot", RECV_CO, None,
+                 holds=good and all(A.mentions(p.ret, lambda x: x == ("sym", "STORED")) for p in oks), key="C05/R2 %s delivered-reply-origin" % fn)
+    chk.instance("C05/R2", "that slot is requests.get_mut(&message_id) with the caller's own id", RECV_CO, None, holds=good, key="C05/R2 %s own-slot-key" % fn)
+    chk.instance("C05/R2", "the caller's result is into_result() of that reply (after the id cross-check of try_from), and a ready reply is delivered without "
+                 "touching the transport", RECV_CO, None,
+                 holds=bool(oks) and all(A.vstr(p.ret).startswith("Reply::into_result(") and ("try_into(«STORED»)→Ok.0" in A.vstr(p.ret) or "try_from(«STORED»)→Ok.0" in A.vstr(p.ret))
+                                         for p in oks) and not any(p.calls("ServerMsg::recv") or p.calls("PartialReply::recv") for p in ps)
+                 and all(p in oks or (A.is_res(p.ret) and p.ret[2] == "Err") for p in ps), key="C05/R2 %s result-origin" % fn)
+    for st, want in (("Complete", "RequestComplete"), ("absent", "RequestNotFound")):
+        ps = explore_recv(fx, st, "-")
+        ok = bool(ps) and all(A.is_res(p.ret) and p.ret[2] == "Err" and want in errname(p) and not (p.calls("ServerMsg::recv") or p.calls("PartialReply::recv")) for p in ps)
+        chk.instance("C05/R2", "own slot %s => Err(%s), nothing is read or delivered" % (st, want), RECV_CO, None, holds=ok,
+                     key=("C05/R2 %s unknown-id-not-rejected own" % fn) if st == "absent" else ("C05/R2 %s own-slot-complete" % fn))
+    # --- a reply read off the transport ------------------------------------------------------------------------------------------------------
+    table = {}
+    for park in ("Pending", "Ready", "Complete", "absent"):
+        ps = explore_recv(fx, "Pending", park)
+        rd_ok = [p for p in ps if any(v == "Ok" for k, v in p.assume.items() if "async-ready" in k)]
+        rd_err = [p for p in ps if any(v == "Err" for k, v in p.assume.items() if "async-ready" in k)]
+        table[park] = rd_ok
+        if park == "Pending":
+            chk.instance("C05/R2", "own slot Pending: the transport is read once; a read error is returned", RECV_CO, None,
+                         holds=bool(rd_ok) and bool(rd_err) and all(len(p.calls("ServerMsg::recv") + p.calls("PartialReply::recv")) == 1 for p in ps)
+                         and all(A.is_res(p.ret) and p.ret[2] == "Err" for p in rd_err), key="C05/R2 %s read-once" % fn)
+            lk = [[e for e in p.trace if e[0] == "lookup"] for p in rd_ok]
+            ok = bool(lk) and all(len(l) == 2 and l[0][1] == "own" and l[1][1] == "reply" and "message_id" in A.vstr(l[1][2]) for l in lk)
+            chk.instance("C05/R2", "a received reply is parked in the slot looked up by its own message-id", RECV_CO, None, holds=ok,
+                         key="C05/R2 %s parking-slot-key" % fn)
+            stored = []
+            for p in rd_ok:
+                stored += [a for a in p.assigns() if a[2][0] == "adt" and a[2][1].endswith("OutstandingRequest") and a[2][2] == "Ready"]
+            ok = bool(stored) and all(A.mentions(a[2], lambda x: x == ("sym", "READ")) for a in stored) and all(p.end == "iter-end" for p in rd_ok)
+            chk.instance("C05/R2", "the parked value is Ready(<the reply just read>), and the caller goes on waiting for its own", RECV_CO, None, holds=ok,
+                         key="C05/R2 %s parked-value" % fn)
+            chk.instance("C05/R3", "parking: Pending -> Ready(reply)", RECV_CO, None, holds=ok, key="C05/R3 parking arm Pending")
+        elif park in ("Ready", "Complete"):
+            want = "MessageIdCollision" if park == "Ready" else "RequestComplete"
+            ok = bool(rd_ok) and all(A.is_res(p.ret) and p.ret[2] == "Err" and want in errname(p) for p in rd_ok) and \
+                not any(a[2][0] == "adt" and a[2][2] == "Ready" and A.mentions(a[2], lambda x: x == ("sym", "READ")) for p in rd_ok for a in p.assigns())
+            chk.instance("C05/R3", "parking: slot already %s => Err(%s), the stored state is not overwritten" % (park, want), RECV_CO, None, holds=ok,
+                         key="C05/R3 parking arm %s" % park)
+        else:
+            ok = bool(rd_ok) and all(A.is_res(p.ret) and p.ret[2] == "Err" and "RequestNotFound" in errname(p) and "READ" in errname(p) for p in rd_ok)
+            chk.instance("C05/R2", "a message-id with no outstanding request takes the error edge (never delivered / stored)", RECV_CO, None, holds=ok,
+                         key="C05/R2 %s unknown-id-not-rejected park" % fn)
+    # no Ok fabricated: every non-error result is into_result of the own slot's reply (checked above for Ready; nothing else returns a value)
+    fabricated = []
+    for own in ("Pending", "Complete", "absent"):
+        for p in explore_recv(fx, own, "Pending"):
+            if p.ret is not None and not (A.is_res(p.ret) and p.ret[2] == "Err") and p.end != "iter-end":
+                fabricated.append(A.vstr(p.ret)[:80])
+    chk.instance("C05/R2", "no other Ok(..) is fabricated in Session::recv", RECV_CO, None, holds=not fabricated, key="C05/R2 %s fabricated-Ok" % fn,
+                 detail="; ".join(fabricated[:3]) or None)
     # no other writer of slots
     ins = [c for c in fx.bodies_matching(lambda n: n.startswith("netconf::session::")) for c in c.calls()
            if c.is_fn("Entry::insert", "VacantEntry::<'a, K, V, A>::insert", "HashMap::<K, V, S, A>::insert", "HashMap::<K, V, S>::insert",
                       "HashMap::<K, V, S, A>::remove", "HashMap::<K, V, S>::remove", "HashMap::<K, V, S, A>::clear")]
     for c in ins:
-        ok = c.is_fn("VacantEntry::<'a, K, V, A>::insert", "insert") and True
-        # must be in rpc
         owner = [n for n, bb in fx.mir.items() if c in bb.calls()]
         ok = bool(owner) and owner[0].startswith(SESSION + "::rpc::")
         chk.instance("C05/R2", "slots are inserted only by Session::rpc (VacantEntry::insert)", owner[0] if owner else "?", c.loc(),
                      holds=ok, key="C05/R2 slot-inserted-in %s" % T.strip_generics(owner[0] if owner else "?"))
 
 
-# ---------------------------------------------------------------------------------------------
-VARIANTS = ("Pending", "Ready", "Complete")
-
-
-def arm_variants(pat, remaining):
-    """Set of OutstandingRequest variants a pattern can match."""
-    k = pat.get("k")
-    if k == "Variant" and pat["adt"].endswith("session::OutstandingRequest"):
-        return {pat["variant"]}
-    if k == "Or":
-        out = set()
-        for p in pat["pats"]:
-            out |= arm_variants(p, remaining)
-        return out
-    if k == "Bind":
-        return arm_variants(pat["sub"], remaining) if pat.get("sub") else set(remaining)
-    if k == "Deref":
-        return arm_variants(pat["sub"], remaining)
-    if k == "Wild":
-        return set(remaining)
-    return set(remaining)
-
-
-def mutates_slot(body):
-    """Expression writes through the slot reference (assignment, mem::replace / swap / take)."""
-    for n in T.walk(body):
-        if n.get("k") in ("Assign", "AssignOp"):
-            return True
-        if n.get("k") == "Call" and n.get("fn") and n["fn"].split("::")[-1] in ("replace", "swap", "take") and "mem::" in n["fn"]:
-            return True
-    return False
-
-
 def r3_state_machine(chk, fx):
-    t = fx.thir_body("netconf::session::OutstandingRequest::take")
-    chk.analysed(t["def"])
-    body = T.user_body(t)
-    ms = T.find(body, "Match")
-    if len(ms) != 1:
-        chk.instance("C05/R3", "take() is a single match on the slot state", t["def"], loc_of(t.get("sp")), holds=False,
-                     key="C05/R3 take unrecognised-form")
-        return
-    m = ms[0]
-    scrut = T.expr_str(m["scrut"]).replace(" ", "")
-    replaced = scrut in ("mem::replace(self,OutstandingRequest::Complete)", "mem::replace(&mut*self,OutstandingRequest::Complete)")
-    chk.instance("C05/R3", "take(): the slot is set to Complete while its old state is examined (%s)" % scrut, t["def"],
-                 loc_of(m.get("sp")), holds=replaced, key="C05/R3 take scrutinee")
+    """OutstandingRequest::take as a function of the slot state (abstract interpretation with the store through &mut self modelled)."""
+    from vlib import absint as A
+    tk = OR + "::take"
+    if tk not in fx.thir:
+        raise F.AnchorLost(tk)
+    chk.analysed(tk)
     rows = {}
-    remaining = list(VARIANTS)
-    n = 0
-    for a in m["arms"]:
-        vs = arm_variants(a["pat"], remaining)
-        remaining = [v for v in remaining if v not in vs]
-        res = T.peel(a["body"])
-        rs = T.expr_str(a["body"])
-        binds = [x["name"] for x in T.walk(a["pat"]) if x.get("k") == "Bind"]
-        for v in sorted(vs):
-            rows[v] = rs
-            n += 1
-            if v == "Ready":
-                tail = res if res.get("k") != "Block" else (res.get("expr") or {})
-                tail = T.peel(tail)
-                ok = tail.get("k") == "Adt" and tail["variant"] == "Ok" and not mutates_slot(a["body"])
-                if ok:
-                    inner = T.peel(tail["fields"][0]["expr"])
-                    ok = inner.get("k") == "Adt" and inner["variant"] == "Some" and T.peel(inner["fields"][0]["expr"]).get("name") in binds
-                chk.instance("C05/R3", "take(): Ready(r) => Ok(Some(r)), slot stays Complete (delivered once)", t["def"],
-                             loc_of(a.get("sp")), holds=ok, key="C05/R3 take arm Ready", detail=rs)
-            elif v == "Complete":
-                oks = [x for x in T.find(a["body"], "Adt") if x["variant"] == "Ok" and x["adt"].endswith("result::Result")]
-                chk.instance("C05/R3", "take(): Complete => Err (a reply is never delivered twice)", t["def"], loc_of(a.get("sp")),
-                             holds=not oks and "Result::Err" in rs, key="C05/R3 take arm Complete", detail=rs)
-            elif v == "Pending":
-                restores = False
-                for c in T.calls(a["body"], "mem::swap"):
-                    names = {T.peel(x).get("name") for x in c["args"]}
-                    if "self" in names and names & set(binds):
-                        restores = True
-                for asg in T.find(a["body"], "Assign"):
-                    if T.peel(asg["lhs"]).get("name") == "self":
-                        r = T.peel(asg["rhs"])
-                        if r.get("name") in binds or (r.get("k") == "Adt" and r.get("variant") == "Pending"):
-                            restores = True
-                nones = [x for x in T.find(a["body"], "Adt") if x["variant"] == "None"]
-                somes = [x for x in T.find(a["body"], "Adt") if x["variant"] == "Some"]
-                chk.instance("C05/R3", "take(): Pending => slot restored to Pending, Ok(None)", t["def"], loc_of(a.get("sp")),
-                             holds=bool(restores and nones and not somes), key="C05/R3 take arm Pending", detail=rs)
-    chk.extra["take_table"] = rows
-    chk.floor("C05/R3 take() variant rows", n, 3)
-    # parking match in Session::recv
-    t = fx.thir_body(SESSION + "::recv::{closure#0}::{closure#0}")
-    body = T.user_body(t)
-    pm = [m for m in T.find(body, "Match")
-          if any(x.get("k") == "Variant" and x["adt"].endswith("session::OutstandingRequest") for a in m["arms"] for x in T.walk(a["pat"]))]
-    if len(pm) != 1:
-        chk.instance("C05/R3", "Session::recv parks a received reply through one match on the slot state", t["def"],
-                     loc_of(t.get("sp")), holds=False, key="C05/R3 parking unrecognised-form")
-        return
-    rows = {}
-    remaining = list(VARIANTS)
-    n = 0
-    for a in pm[0]["arms"]:
-        vs = arm_variants(a["pat"], remaining)
-        remaining = [v for v in remaining if v not in vs]
-        v_s = T.expr_str(a["body"])
-        for v in sorted(vs):
-            n += 1
-            rows[v] = v_s
-            if v == "Pending":
-                ok = "OutstandingRequest::Ready(reply)" in v_s and mutates_slot(a["body"]) and not T.find(a["body"], "Break")
-                chk.instance("C05/R3", "parking: Pending => store Ready(reply) and keep reading", t["def"], loc_of(a.get("sp")), holds=ok,
-                             key="C05/R3 parking arm Pending", detail=v_s)
-            else:
-                brk = T.peel(a["body"])
-                if brk.get("k") == "Block":
-                    brk = T.peel(brk.get("expr") or {})
-                ok = brk.get("k") in ("Break", "Return") and "Result::Err" in v_s and not mutates_slot(a["body"])
-                chk.instance("C05/R3", "parking: %s => error, slot untouched (no overwrite / double delivery)" % v, t["def"],
-                             loc_of(a.get("sp")), holds=ok, key="C05/R3 parking arm %s" % v, detail=v_s)
-    chk.extra["parking_table"] = rows
-    chk.floor("C05/R3 parking variant rows", n, 3)
+    want = {"Pending": ("Ok(None)", "OutstandingRequest::Pending", "take arm Pending", "Pending => slot stays Pending, Ok(None)"),
+            "Ready": ("Ok(Some(«STORED»))", "OutstandingRequest::Complete", "take arm Ready", "Ready(r) => Ok(Some(r)), slot becomes Complete (delivered once)"),
+            "Complete": ("Err(Error::RequestComplete)", "OutstandingRequest::Complete", "take arm Complete", "Complete => Err (a reply is never delivered twice)")}
+    for v, (ret, final, key, what) in want.items():
+        ps = A.Interp(fx, crates=("netconf",)).explore(tk, args=[_slot(v)])
+        got = sorted({(A.vstr(p.ret), A.vstr(p.env.get("self"))) for p in ps})
+        rows[v] = got
+        ok = got == [(ret, final)] or (v == "Complete" and len(got) == 1 and got[0][0].startswith("Err(") and "RequestComplete" in got[0][0] and got[0][1] == final)
+        chk.instance("C05/R3", "take(): %s" % what, tk, None, holds=ok, key="C05/R3 %s" % key, detail=str(got))
+    chk.extra["take_table"] = {k: [list(x) for x in v] for k, v in rows.items()}
+    chk.instance("C05/R3", "take() is decided for all three slot states", tk, None, holds=len(rows) == 3, key="C05/R3 take unrecognised-form")
 
 
 # ---------------------------------------------------------------------------------------------
